@@ -99,7 +99,8 @@ static void yield_point(int sync_point)
 		/* enumerator: forced[k] = yield index at which to preempt (sorted), then target party */
 		if (S.fpos + 5 <= S.nforced) {
 			uint32_t at; memcpy(&at, S.forced + S.fpos, 4);
-			if (at == S.yields) { want = S.forced[S.fpos + 4] % S.n; S.fpos += 5; }
+			if (at == S.yields) { want = S.forced[S.fpos + 4] == 0xFF ? (my_id + 1) % S.n : S.forced[S.fpos + 4] % S.n; S.fpos += 5; }
+			else if (at < S.yields) S.fpos += 5;	/* missed (cannot happen with sorted positions) */
 		}
 	} else if (S.quiet) {
 		S.quiet--;
